@@ -73,6 +73,7 @@ func (r *SeqResult) Violate(sig, what string, replay interface{}) {
 }
 
 type job struct {
+	XCheck   bool   `json:"x,omitempty"`
 	Seq      string `json:"q,omitempty"`
 	Shard    int    `json:"i,omitempty"`
 	NShards  int    `json:"n,omitempty"`
@@ -186,6 +187,36 @@ func (sc *Scenario) exploreJob(j job) jobResult {
 	return res
 }
 
+type xcheckResult struct {
+	Verdict  string `json:"verdict"`
+	Mismatch string `json:"mismatch"`
+}
+
+func (sc *Scenario) crossCheck(cb int) xcheckResult {
+	sets := [2]map[string]bool{{}, {}}
+	var execs [2]int64
+	for k, cache := range []bool{true, false} {
+		r := sc.exploreJob(job{Scenario: sc.Name, Bound: cb, Cache: cache, Deadline: time.Now().Add(40 * time.Second).Unix()})
+		if r.Stats.Capped {
+			return xcheckResult{Verdict: fmt.Sprintf("inconclusive at bound %d (40 s cap)", cb)}
+		}
+		for o := range r.Outcomes {
+			sets[k][o] = true
+		}
+		execs[k] = r.Stats.Executions
+	}
+	same := len(sets[0]) == len(sets[1])
+	for o := range sets[1] {
+		if !sets[0][o] {
+			same = false
+		}
+	}
+	if same {
+		return xcheckResult{Verdict: fmt.Sprintf("ok at bound %d: %d outcome classes with and without cache (%d vs %d executions)", cb, len(sets[0]), execs[0], execs[1])}
+	}
+	return xcheckResult{Verdict: "MISMATCH", Mismatch: fmt.Sprintf("state cache pruned an outcome class: cached %v uncached %v", keys(sets[0]), keys(sets[1]))}
+}
+
 type scenStat struct {
 	Bound          int              `json:"bound_completed"`
 	BoundRequested int              `json:"bound_requested"`
@@ -214,6 +245,9 @@ func Main(id string, scenarios []Scenario, extra Extra, seqParts ...SeqPart) {
 			if j.Seq != "" {
 				return seqByName[j.Seq].Run(j.Shard, j.NShards, j.Thorough)
 			}
+			if j.XCheck {
+				return byName[j.Scenario].crossCheck(j.Bound)
+			}
 			return byName[j.Scenario].exploreJob(j)
 		})
 	}
@@ -222,6 +256,11 @@ func Main(id string, scenarios []Scenario, extra Extra, seqParts ...SeqPart) {
 		return
 	}
 	run := report.New(id, "model_checking")
+	// code under test may print (a stray fmt.Println in one balancer): keep the check's stdout clean
+	realStdout := os.Stdout
+	if null, err := os.OpenFile(os.DevNull, os.O_WRONLY, 0); err == nil {
+		os.Stdout = null
+	}
 	thorough := run.Thorough()
 	budget := 150 * time.Second
 	if thorough {
@@ -401,50 +440,38 @@ func Main(id string, scenarios []Scenario, extra Extra, seqParts ...SeqPart) {
 			}
 		}
 	}
-	// cache cross-check: bound min(requested,1) without the cache must yield the same outcome classes
-	for i := range scenarios {
-		sc := &scenarios[i]
-		st := stats[sc.Name]
-		if st == nil || sc.NoCache || st.Bound < 0 {
-			continue
-		}
-		if time.Now().After(deadline.Add(60 * time.Second)) {
-			st.CrossCheck = "skipped (budget)"
-			continue
-		}
-		cb := st.Bound
-		if cb > 1 {
-			cb = 1
-		}
-		sets := [2]map[string]bool{{}, {}}
-		var execs [2]int64
-		for k, cache := range []bool{true, false} {
-			r := sc.exploreJob(job{Scenario: sc.Name, Bound: cb, Cache: cache, Deadline: time.Now().Add(45 * time.Second).Unix()})
-			if r.Stats.Capped {
-				st.CrossCheck = "inconclusive (45 s cap)"
+	// cache cross-check (on the workers): bound min(completed,1) without the cache must yield the same
+	// outcome classes as with it
+	{
+		var jobs []interface{}
+		var names []string
+		for i := range scenarios {
+			sc := &scenarios[i]
+			st := stats[sc.Name]
+			if st == nil || sc.NoCache || st.Bound < 0 {
+				continue
 			}
-			for o := range r.Outcomes {
-				sets[k][o] = true
+			cb := st.Bound
+			if cb > 1 {
+				cb = 1
 			}
-			if os.Getenv("VERIF_DEBUG") != "" {
-				fmt.Fprintf(os.Stderr, "crosscheck %s cache=%v: %+v err=%q outcomes=%d\n", sc.Name, cache, r.Stats, r.Err, len(r.Outcomes))
-			}
-			execs[k] = r.Stats.Executions
+			jobs = append(jobs, job{Scenario: sc.Name, Bound: cb, XCheck: true})
+			names = append(names, sc.Name)
 		}
-		if st.CrossCheck == "" {
-			same := len(sets[0]) == len(sets[1])
-			for o := range sets[1] {
-				if !sets[0][o] {
-					same = false
-				}
+		shard.Run(jobs, shard.Options{JobTimeout: 5 * time.Minute}, func(i int, raw json.RawMessage, fail *shard.Failure) {
+			st := stats[names[i]]
+			if fail != nil {
+				st.CrossCheck = "failed: " + fail.Kind
+				run.Infra(names[i] + ": cross-check worker " + fail.Kind + "\n" + fail.Stderr)
+				return
 			}
-			if same {
-				st.CrossCheck = fmt.Sprintf("ok at bound %d: %d outcome classes with and without cache (%d vs %d executions)", cb, len(sets[0]), execs[0], execs[1])
-			} else {
-				st.CrossCheck = "MISMATCH"
-				run.Infra(fmt.Sprintf("%s: state cache pruned an outcome class: cached %v uncached %v", sc.Name, keys(sets[0]), keys(sets[1])))
+			var r xcheckResult
+			json.Unmarshal(raw, &r)
+			st.CrossCheck = r.Verdict
+			if r.Mismatch != "" {
+				run.Infra(names[i] + ": " + r.Mismatch)
 			}
-		}
+		})
 	}
 	var states, trans, traces int64 = xStates, xTrans, xTraces
 	allEx := true
@@ -477,6 +504,7 @@ func Main(id string, scenarios []Scenario, extra Extra, seqParts ...SeqPart) {
 	run.Set("single_outcome_scenarios", vacuous)
 	run.Set("explanation", "states = distinct happens-before states cached by the explorer (plus model states of the explicit-state parts); transitions = scheduling steps executed on the real (rewritten) code plus real handler calls of the explicit-state parts; traces_validated_against_impl = complete executions: every explored schedule runs the implementation itself")
 	run.Assumption("sequentially consistent memory; the vs shims model Go's sync/channel/select/timer semantics (litmus suite); data races on plain memory are invisible to a cooperative scheduler")
+	os.Stdout = realStdout
 	run.Assumption("exhaustive within the stated deviation bound (preemptions + eager timer firings) per scenario; data choices and switches at blocking points are always fully enumerated")
 	run.Finish()
 }
@@ -548,4 +576,17 @@ func ForEachSeq(k, depth, shard, nshards int, f func(seq []int)) {
 			}
 		}
 	}
+}
+
+// AllChoices runs body under the controlled scheduler once for every combination of data choices
+// (random draws, map orders, harness choices) with no preemptions, and calls check after each run.
+func AllChoices(cfg vs.Config, body func(), check func(s *vs.Sched)) (executions int64, err string) {
+	ex := &explore.Explorer{Bound: 0, Run: func(ch vs.Chooser, trace bool) *vs.Sched {
+		c := cfg
+		c.Trace = trace
+		return vs.Run(ch, c, body)
+	}}
+	ex.Check = func(x *explore.Exec) { check(x.Sched) }
+	ex.Subtree(nil)
+	return ex.Stats.Executions, ex.Err
 }
